@@ -45,10 +45,8 @@ POINTER_BUILD_ENTRIES = [
     "JSONPointer.__init__", "JSONPointer.from_parts", "JSONPointer.from_match",
     "JSONPointer.join", "JSONPointer.__truediv__", "JSONPointer.parent",
 ]
-POINTER_RESOLVE_ENTRIES = [
-    "JSONPointer.resolve", "JSONPointer.resolve_parent", "JSONPointer.exists",
-    "jsonpath.pointer.resolve",
-]
+POINTER_RESOLVE_ENTRIES = ["JSONPointer.resolve", "JSONPointer.resolve_parent", "JSONPointer.exists"]
+POINTER_RESOLVE_TEXT_ENTRIES = ["jsonpath.pointer.resolve"]  # builds the pointer from text first
 RELATIVE_ENTRIES = ["RelativeJSONPointer.__init__", "RelativeJSONPointer.to", "JSONPointer.to"]
 PATCH_ENTRIES = [
     "JSONPatch.__init__", "JSONPatch.apply", "jsonpath.patch.apply",
@@ -60,7 +58,9 @@ PATCH_ENTRIES = [
 GROUPS = [
     ("jsonpath", ["JSONPathError"], JSONPATH_ENTRIES),
     ("pointer construction", ["JSONPointerError"], POINTER_BUILD_ENTRIES),
-    ("pointer resolution", ["JSONPointerError"], POINTER_RESOLVE_ENTRIES),
+    # "resolution fails only with pointer resolution errors"
+    ("pointer resolution", ["JSONPointerResolutionError"], POINTER_RESOLVE_ENTRIES),
+    ("pointer resolution from text", ["JSONPointerError"], POINTER_RESOLVE_TEXT_ENTRIES),
     ("relative pointer", ["RelativeJSONPointerError", "JSONPointerError"], RELATIVE_ENTRIES),
     ("patch", ["JSONPatchError"], PATCH_ENTRIES),
 ]
@@ -362,4 +362,51 @@ def r6_6(ctx: Ctx) -> RuleResult:
     return rr
 
 
-RULES = [r6_1, r6_3, r6_4, r6_5, r6_6]
+def r6_7(ctx: Ctx) -> RuleResult:
+    """Termination in the library's own regular expressions (time in the engine on a *caller-supplied* pattern is
+    outside the claim; the lexer's rules and the pointer patterns are the library's): no unbounded repetition whose
+    body can match one piece of text in two ways - alternatives that can begin with the same character or be empty,
+    a repetition of a repetition.  That ambiguity is what makes a text that finally fails to match (an unterminated
+    string with n escapes) take 2^n steps."""
+    from sa import regexast
+    from sa.consteval import NotConst
+    from sa.consteval import RegexConst
+
+    rr = RuleResult("R6.7", "the library's own patterns have no ambiguous unbounded repetition", floor=8)
+    lex = ctx.lexer
+    todo = [(lex.compile_fn, f"lexer rule {name}", pat, lex.master.flags) for name, pat in lex.rules]
+    for mod in ctx.repo.modules.values():
+        for name, e in mod.assigns.items():
+            try:
+                v = ctx.folder.eval_in(e, mod)
+            except (NotConst, AnalysisError):
+                continue
+            if isinstance(v, RegexConst):
+                todo.append((None, f"{mod.name}.{name}", v.pattern, v.flags))
+    for cls in ctx.repo.classes.values():
+        for name in cls.assigns:
+            try:
+                v = ctx.folder.class_attr(cls, name)
+            except (NotConst, AnalysisError):
+                continue
+            if isinstance(v, RegexConst):
+                todo.append((None, f"{cls.qualname}.{name}", v.pattern, v.flags))
+    for fn, label, pat, flags in todo:
+        try:
+            tree = regexast.parse(pat, flags)
+        except AnalysisError:
+            continue  # (an invalid pattern is R6.1's business)
+        problems = regexast.ambiguous_repeats(tree)
+        if not problems:
+            rr.ok(fn.loc() if fn is not None else label, f"{label}: every repetition has one way to go at each step")
+            continue
+        if fn is not None:
+            rr.bad(fn, fn.node, f"{label} `{pat[:80]}`: {problems[0]} - a text that does not match in the end is tried in exponentially many ways",
+                   construct=f"{label}: {problems[0]}")
+        else:
+            rr.bad(None, None, f"{label} `{pat[:80]}`: {problems[0]} - a text that does not match in the end is tried in exponentially many ways",
+                   construct=f"{label}: {problems[0]}", file=label.rsplit(".", 1)[0].replace(".", "/") + ".py", qualname=label)
+    return rr
+
+
+RULES = [r6_1, r6_3, r6_4, r6_5, r6_6, r6_7]
